@@ -252,7 +252,12 @@ func (c *ctx) wireCases(e *psEnv, r *vlib.Rand, round int, ctx context.Context, 
 		ps = append(ps, p)
 	}
 
+	lost := 0
 	for _, p := range ps {
+		if lost >= 2 {
+			c.Note("wire cases abandoned: the receivers stopped delivering")
+			return
+		}
 		c.Eval()
 		c.Count("wire:" + p.kind)
 		if err := e.topicP.Publish(ctx, p.data); err != nil {
@@ -275,6 +280,7 @@ func (c *ctx) wireCases(e *psEnv, r *vlib.Rand, round int, ctx context.Context, 
 			a, err := nextAnn(rc.r, wait)
 			if err != nil {
 				fail(p.kind+":sentinel-lost", fmt.Sprintf("after payload %s receiver %s delivered nothing any more (the valid message behind it was lost): %v", p.kind, rc.name, err))
+				lost++
 				continue
 			}
 			gc, gp, ga := e.annOf(a, cids)
